@@ -155,6 +155,23 @@ def o_init_group(ctx):
         ctx.claim('non-ionizable-never-reported', rep is False)
 
 
+def o_option_plumbing(ctx):
+    """--titrate_only reaches the calculation as given whatever else is on the command line: entries on chains that are
+    not read are entries naming residues that do not exist (no effect), they do not switch the restriction off"""
+    import propka.lib as L
+    from . import micro as M
+    case = ctx.choice('case', [(['-i', 'A:25'], [('A', 25, ' ')]), (['-c', 'A', '-i', 'B:25'], [('B', 25, ' ')]), (['-c', 'A', '-i', 'B:25,A:25'], [('B', 25, ' '), ('A', 25, ' ')]),
+                               (['-c', 'B', '-i', 'A:25,A:24'], [('A', 25, ' '), ('A', 24, ' ')]), (['-i', 'Z:1'], [('Z', 1, ' ')])])
+    args, want = case
+    opts = L.loadOptions(args + ['x.pdb'])
+    ctx.claim('list-as-given', list(opts.titrate_only) == want if opts.titrate_only is not None else False, detail='%r -> %r' % (args, opts.titrate_only))
+    mol = M.run(M.text('pair_ASP_ASP'), args=args)
+    rep = M.reported(mol)
+    read = [args[args.index('-c') + 1]] if '-c' in args else ['A', 'B']
+    expect = sorted('ASP  25 %s' % c for (c, n, i) in want if n == 25 and c in read)
+    ctx.claim('reported-exactly-the-listed-groups-that-exist', sorted(rep) == expect, detail='%r: reported %r, expected %r' % (args, rep, expect))
+
+
 SITES = {'pair_CYS_CYS_bridge': ['E:41', 'E:42', 'E:57', 'E:58'], 'pair_GLU_ARG_TYR': ['A:34', 'A:35', 'A:57', 'A:59'], 'pair_LYS_ASP': ['A:42', 'A:43', 'A:59', 'A:60'], 'pep8': ['A:25', 'A:29', 'A:30']}
 
 
@@ -248,6 +265,9 @@ def obligations(tier):
                           bounds='group kind in {ASP, CYS, bridged CYS, backbone N, LYS}; symbolic chain / number in [-999,9999] / insertion code; '
                                  'list of 0, 1 or 3 symbolic triples; option absent or present',
                           claim_doc='titratable / reported afterwards <=> ionizable and the triple is listed', max_paths=100000, shards=4))
+    obs.append(Obligation('O5-option-plumbing', o_option_plumbing, code=['propka/lib.py:loadOptions', 'propka/lib.py:parse_res_list', 'propka/run.py:single (whole pipeline)'],
+                          bounds='5 command lines combining -i with -c (entries on read and unread chains) on the two-chain micro-structure', kind='table-check',
+                          claim_doc='options.titrate_only is the parsed list; exactly the listed groups that exist in what was read are reported'))
     for name in (['pair_GLU_ARG_TYR', 'pair_CYS_CYS_bridge'] if tier == 'quick' else ['pair_GLU_ARG_TYR', 'pair_CYS_CYS_bridge', 'pair_LYS_ASP', 'pep8']):
         obs.append(Obligation('O3-pipeline[%s]' % name, mk_pipeline(name, 300 if tier == 'quick' else 2509),
                               code=['propka/run.py:single (whole pipeline)', 'propka/conformation_container.py:ConformationContainer.init_group', 'propka/energy.py:radial_volume_desolvation',
